@@ -188,7 +188,7 @@ PROPS['C08'] = dict(
     budget={'quick': 20, 'thorough': 300},
     trusted=['T10 numpy / random: randint in [a,b), choice(replace=False) returns distinct elements of its argument, choice never returns a value of probability 0, shuffle permutes, np.sum / array division as documented',
              'T8 file I/O', 'T9 argparse', 'int(a / b) == a // b for a + b < 2**53 (DESIGN 3.1)'],
-    assumptions=['create_instance is verified over the lexical view of its text (lines of blank-separated tokens; a colon is deleted by the reader; T7): header with the counts, one numbered line per agent carrying exactly the numbers / bracketed list handed over, second-side lists only when given, blank line, parameter block; the content of the parameter block (create_instance_info) and the file names 0.txt, 1.txt, ... are covered by the bounded stand-in only', 'generate_instances is verified for argument records satisfying the postconditions of Instance_options_parser.parse (C15)'])
+    assumptions=['create_instance is verified over the lexical view of its text (lines of blank-separated tokens; a colon is deleted by the reader; T7): header with the counts, one numbered line per agent carrying exactly the numbers / bracketed list handed over, second-side lists only when given, blank line, parameter block; generate_instances writes exactly numberinstances files, write number u to <outputdirectory>/<u>.txt opened for writing, each holding the text create_instance returned for that iteration with the requested counts in its header (ghost log of file writes, T8); the content of the parameter block (create_instance_info) is covered by the bounded stand-in only', 'generate_instances is verified for argument records satisfying the postconditions of Instance_options_parser.parse (C15)'])
 GETTER_HELPERS = ['_get_max_rank', '_get_cost', '_get_cost_sq', '_get_degree', '_get_profile', '_get_lec_abs_diffs', '_get_max_lec_abs_diff', '_get_sum_lec_abs_diff',
                   '_get_matching_string', '_get_matching_size', '_get_pair_assignments', '_get_pair_assignments_with_none', 'get_results', 'get_debug', '_pairs_string',
                   'check_stability', 'get_num_assignments_projects', 'get_num_assignments_lecturers', 'get_worst_rank_projects', 'get_worst_rank_lecturers']
